@@ -181,10 +181,11 @@ func (ie *ImageExtractor) processPicture(picture *html.Node) {
 		}
 	}
 
-	// Comments are not part of the picture either.
+	// Comments and text are not part of the picture either. The picture is only
+	// rendered in the HTML view, so text left in it would be missing from the text view.
 	for child := picture.FirstChild; child != nil; {
 		next := child.NextSibling
-		if child.Type == html.CommentNode {
+		if child.Type != html.ElementNode {
 			picture.RemoveChild(child)
 		}
 		child = next
